@@ -57,6 +57,12 @@ def run (name : String) (arg v : Bytes) : Option (Option Bool) :=
   | "unconditionalMatch" => some (some true)
   | "noMatch" => some (some false)
   | "ipMatch" => if allAscii arg then some (some (ipMatch arg v)) else Option.none
+  -- the argument field carries the *content* of the data file / the dataset's phrases joined by LF
+  | "pmFromFile" => if allAscii arg && allAscii v then some (some (pmFromFile arg v)) else Option.none
+  | "pmFromDataset" =>
+    -- (an empty phrase is outside the contract assumed of the Aho-Corasick matcher; SecDataset never yields one)
+    if allAscii arg && allAscii v && (splitOn 0x0a arg).all (fun p => !p.isEmpty) then
+      some (some (pmFromDataset (splitOn 0x0a arg) v)) else Option.none
   | _ => Option.none
 
 def render : Option Bool → String
